@@ -813,6 +813,22 @@ impl KeyPool {
         } else if roll < 42 && self.raw.is_some() {
             let (a, b) = self.raw.unwrap();
             if (roll % 3 == 0) == (d == 0) { b } else { a }
+        } else if roll < 50 {
+            // constant-byte keys (all of them agree on every XOR / sum-of-lanes digest of the key)
+            [[1u8, 2, 3, 0x55, 0xaa, 0x80, 0x7f, 0xfe][r.below(8)]; 32]
+        } else if roll < 62 && self.last[d].is_some() {
+            // a key RELATED to the one in place: two bytes exchanged (8, 16 or 1 apart), one bit flipped, reversed,
+            // rotated by a lane: a cipher that recognises "the same key" by anything short of the key must not
+            let mut k = self.last[d].unwrap();
+            match r.below(6) {
+                0 => { let i = r.below(24); k.swap(i, i + 8); },
+                1 => { let i = r.below(16); k.swap(i, i + 16); },
+                2 => { let i = r.below(31); k.swap(i, i + 1); },
+                3 => { let i = r.below(32); k[i] ^= 1 << r.below(8); },
+                4 => k.reverse(),
+                _ => k.rotate_left(8),
+            }
+            k
         } else {
             r.bytes(32).try_into().unwrap()
         };
@@ -1088,7 +1104,19 @@ pub fn run_transport(cfg: &TransportCfg, sc: &mut Sc) {
             // abstract receiver: accept iff msg is the sender's message number recv_n under the same key epoch
             let dd = &mut dirs[d];
             let genuine = dd.sent.iter().find(|(n, m, _, key)| *n == dd.recv_n && *m == msg && *key == dd.recv_key);
-            let expect = genuine.map(|x| x.2.clone());
+            let mut expect = genuine.map(|x| x.2.clone());
+            if expect.is_none() {
+                // the APPLICATION installed one and the same key by hand in both directions: a message of the other
+                // direction with this counter under that key IS an encryption under (key, counter) -- not snow's doing
+                let (rn, rk) = (dirs[d].recv_n, dirs[d].recv_key.clone());
+                if rk.starts_with("M(") {
+                    if let Some(x) = dirs[1 - d].sent.iter().find(|(n, m, _, key)| *n == rn && *m == msg && *key == rk) {
+                        expect = Some(x.2.clone());
+                        sc.count("t.same_manual_key_both_directions");
+                    }
+                }
+            }
+            let dd = &mut dirs[d];
             if oneway && d == 1 {
                 // unreachable: d is always 0 for one-way
             }
@@ -1676,7 +1704,10 @@ pub fn run_stateless(cfg: &TransportCfg, sc: &mut Sc) {
             }
             // reflection
             let o = sc.ex.st_read(if wd == 0 { 1 } else { 2 }, wn, &m, p.len());
-            if o.is_ok() && !(oneway) {
+            // (unless the application itself installed one and the same key by hand in both directions)
+            let wdi = if wd == 0 { 0 } else { 1 };
+            let same_manual = skey[wdi].starts_with("M(") && skey[wdi] == rkey[1 - wdi];
+            if o.is_ok() && !(oneway) && !same_manual {
                 sc.viol("C04", format!("{}: message reflected to its sender was accepted", cfg.name));
             }
             let _ = rd;
